@@ -10,6 +10,7 @@ CONSTANTS
   FnFilter = "nogeneric3"
   Shapes = {"plain", "star"}
   MaxSess = 2
+  FixProtoCache = FALSE
   Bug = "none"
 INVARIANT InvBindAgree
 CHECK_DEADLOCK FALSE
